@@ -18,6 +18,7 @@ mut_demo=$(cargo test --offline --test demo 2>&1 | grep -E "^test result" | head
 git checkout -q -- src; rm -rf tests
 echo "demo on unchanged: $base_demo"; echo "suite with change: $suite / $doc"; echo "demo with change: $mut_demo"
 # evidence files are rewritten by every check run: keep the ones of the unchanged tree
+exec 9>/tmp/repo.lock; flock 9
 rm -rf /tmp/evidence_keep && cp -r /verif/evidence /tmp/evidence_keep
 cd /repo && git apply $out/patch.diff || { echo "patch does not apply to /repo"; exit 2; }
 res=""
